@@ -54,8 +54,8 @@ def k_alternative_partition_brut_force(instance, k):
     unique_votes = [vote for vote, _ in instance.flatten_strict()]
 
     # optimum number of partitions can't exceed floor(m / 2)
-    if k > math.floor(m / 2):
-        k = math.floor(m / 2)
+    if k > math.ceil(m / 2):
+        k = math.ceil(m / 2)
 
     # Construct L sets
     L = get_L_sets(alternatives, unique_votes)
